@@ -240,7 +240,7 @@ static void run_op(char *op) {
 			neg = x < 0; mag = neg ? (uint64_t)0 - (uint64_t)x : (uint64_t)x;
 		}
 		ev_begin("GetNum"); kv_bytes("s", s.p, s.n); kv_bytes("n", n.p, n.n);
-		printf(",\"ins\":%s,\"found\":%s", ins ? "true" : "false", rc == 0 ? "true" : "false");
+		printf(",\"ins\":%s,\"uns\":%s,\"found\":%s", ins ? "true" : "false", uns ? "true" : "false", rc == 0 ? "true" : "false");
 		if (rc != 0 && rc != ENOENT) printf(",\"err\":%d", rc);
 		put_limbs(rc == 0 ? neg : 0, rc == 0 ? mag : 0); ev_end();
 		vh_buf_free(s.p); vh_buf_free(n.p);
